@@ -29,7 +29,9 @@ TECHNIQUE = "runtime monitoring: boundary recorder (byte digests of every argume
 LEVEL_TEXT = ("Every estimator's fit / path and every solver's solve are called with their arguments digested byte-for-byte "
               "before and after; random histories of fits (different estimators, shapes, dtypes, sparsity, clones, paths, "
               "reweighting) are followed by a probe fit whose coefficients must be bitwise those of the same fit in a fresh "
-              "process; every fitted estimator is fitted a second time.")
+              "process; every fitted estimator is fitted a second time, an identically configured one is fitted on data of "
+              "another shape first, and a used solver object is compared with a fresh one on other data. Containers "
+              "include CSC with stored zeros.")
 LEVEL_NOTE = ("probes use the deterministic solvers (no sparse power method); fresh-process baselines are computed by "
               "`python -m vlib.probe` with the same seeded data generators")
 RULE = ("cases = (a) (api call, container, estimator), (b) (history of 2-8 operations, probe), (c) (estimator, data); "
